@@ -164,6 +164,14 @@ def impl(op: str) -> str:
     a = op.split(" ")
     k = a[0]
     try:
+        if k == "c06_sigchecked":
+            coin, kinds, ht = a[1], a[2].split(","), int(a[3])
+            tx = S.sign_tx(coin, kinds, ht, n_out=2)
+            res = []
+            for i in range(len(kinds)):
+                trace, _vmap, _vals, outcome = S.observe_checksol(tx, i)
+                res.append("%d/%d" % (1 if (outcome == "ok" and tx.is_solution_ok(i)) else 0, 1 if trace else 0))
+            return "ok " + ",".join(res)
         if k == "c06_hist":
             coin, f, us = a[1], parse_fields(a[2]), parse_us(a[3])
             tx = build(coin, f, us)
@@ -385,6 +393,16 @@ def ref_preimage(coin, f, us, witness, code, idx, ht):
 def oracle(op: str, out: str):
     a = op.split(" ")
     k = a[0]
+    if k == "c06_sigchecked":
+        if not out.startswith("ok "):
+            return "signing or validating a transaction over standard puzzles raised: " + out
+        for i, (kd, cell) in enumerate(zip(a[2].split(","), out[3:].split(","))):
+            if cell == "1/0":
+                return ("input %d (%s) of a transaction signed by the library is reported valid although its validation computed no "
+                        "signature hash at all: nothing of the transaction is bound for it" % (i, kd))
+            if cell != "1/1":
+                return "input %d (%s) of a transaction signed by the library does not validate" % (i, kd)
+        return None
     if k == "c06_hist":
         if not out.startswith("ok"):
             return "validation history raised " + out
@@ -699,6 +717,11 @@ def gen(ctx, emit):
         emit("c06_cache %d %s" % (1 + len(hts), show_list(hts)))
     for _ in range(ctx.n(30, 1000)):
         emit("c06_cache %d %s" % (rng.randrange(1, 1000), show_list([rng.choice([1, 2, 3, 0x81, 0x82, 0x83, 0x41]) for _k in range(rng.randint(1, 12))])))
+    # ---- every standard puzzle kind of every coin: the input the library signs validates, and validating it checks a signature
+    for coin in COINS:
+        names = sorted(n for n, _s, _e in S.puzzles(coin))
+        for ht in (1, 3, 0x82):
+            emit("c06_sigchecked %s %s %d" % (coin, ",".join(names), ht), "signature-checked")
     # ---- histories
     HTS = [1, 2, 3, 0x81, 0x82, 0x83]
     per = ctx.n(2, 20)
